@@ -14,7 +14,7 @@ import time
 from props import c04 as base
 
 ID = "C10"
-GEN_TAGS = []
+GEN_TAGS = ["MerkleGen"]
 PROOF_TARGETS = ["proofs/MerkleProofs.vo"]
 PROPS_FILE = "props/C10.v"
 EXTRACT = "extract/ExtractC04.vo"
@@ -24,6 +24,19 @@ PROFILES = ["release", "checked"]
 RUN_TIMEOUT = {"quick": 900, "thorough": 3000}
 ENV_NAME = "TWENTY_FIRST_MERKLE_TREE_PARALLELIZATION_CUTOFF"
 DEFAULT_CUTOFF = 256
+# both are pinned to the current source through coq/gen/MerkleGen.v (theorem C10_model_matches_source pins the
+# default; the generated file carries the variable name read by the translator)
+try:
+    _gen = open(os.path.join(os.path.dirname(os.path.abspath(__file__)), "..", "..", "coq", "gen", "MerkleGen.v")).read()
+    import re as _re
+    _m = _re.search(r"\(\* ENV (\w+) \*\)", _gen)
+    if _m:
+        ENV_NAME = _m.group(1)
+    _m = _re.search(r"GEN_DEFAULT_PARALLELIZATION_CUTOFF : Z := (\d+)", _gen)
+    if _m:
+        DEFAULT_CUTOFF = int(_m.group(1))
+except OSError:
+    pass
 HANG_TIMEOUT = 20
 
 TRUSTED = base.TRUSTED + [
@@ -38,6 +51,7 @@ RULE = ("every leaf count 0..2^12 (2^16 thorough) under every listed cutoff valu
         "h <= 4 (ordered, length <= 3, with repetition, including out-of-range indices), random above; every case is "
         "non-trivial; distinct = distinct case text")
 
+# CPU affinity (taskset -c 0 / 0-2 with RAYON_NUM_THREADS unset) is varied for cutoffs 0, 1, 256, unset
 ENV_VALUES = [None, "abc", "-1", "0", "1", "2", "3", "4", "8", "255", "256", "257", str(2 ** 20)]
 THREADS = ["1", "2", "5", "16"]
 
@@ -137,10 +151,11 @@ def _run(exe, lines, env, timeout):
     data = ("\n".join(lines) + "\n").encode()
     e = dict(os.environ)
     e.pop(ENV_NAME, None)
+    e.pop("RAYON_NUM_THREADS", None)
     e.update(env)
     t0 = time.time()
     try:
-        p = subprocess.run([exe], input=data, stdout=subprocess.PIPE, stderr=subprocess.PIPE, timeout=timeout, env=e)
+        p = subprocess.run(exe if isinstance(exe, list) else [exe], input=data, stdout=subprocess.PIPE, stderr=subprocess.PIPE, timeout=timeout, env=e)
     except subprocess.TimeoutExpired:
         return None, time.time() - t0
     res = {}
@@ -210,13 +225,20 @@ def extra_checks(ctx):
         with concurrent.futures.ThreadPoolExecutor(max_workers=8) as ex:
             list(ex.map(lambda cu: model_fill([c for _, c in build_lines(cu, nmax, True) + HONEST]), cutoffs))
 
-    def check_env(prof, v, threads, lines_only=None):
+    def check_env(prof, v, threads, lines_only=None, affinity=None):
+        # threads = None: RAYON_NUM_THREADS unset, rayon sizes its pool from available_parallelism(), which is
+        # what the CPU affinity mask (taskset) changes
         cutoff = effective_cutoff(v)
-        env = {"RAYON_NUM_THREADS": threads}
+        env = {}
+        if threads is not None:
+            env["RAYON_NUM_THREADS"] = threads
         if v is not None:
             env[ENV_NAME] = v
-        envdesc = {ENV_NAME: "<unset>" if v is None else v, "RAYON_NUM_THREADS": threads}
+        envdesc = {ENV_NAME: "<unset>" if v is None else v, "RAYON_NUM_THREADS": threads or "<unset>"}
         exe = exes[prof]
+        if affinity:
+            envdesc["taskset"] = affinity
+            exe = ["taskset", "-c", affinity, exe]
         if cutoff == 0 and lines_only is None:
             # `while count >= 0` must not spin: probe with the smallest tree first; a timeout is the failure
             probe = ["0 build 0 1 s0"]
@@ -257,9 +279,10 @@ def extra_checks(ctx):
 
     if rp:
         v = rp["env"].get(ENV_NAME)
+        th = rp["env"].get("RAYON_NUM_THREADS", "2")
         check_env(rp.get("profile", "release") if rp.get("profile") in exes else "release",
-                  None if v == "<unset>" else v, rp["env"].get("RAYON_NUM_THREADS", "2"),
-                  lines_only=[("replay", rp["case"])])
+                  None if v == "<unset>" else v, None if th == "<unset>" else th,
+                  lines_only=[("replay", rp["case"])], affinity=rp["env"].get("taskset"))
         return {"violations": violations, "info": info}
     for v in ENV_VALUES:
         hung = False
@@ -269,6 +292,12 @@ def extra_checks(ctx):
             if check_env("release", v, th) == "hung":
                 hung = True
     if "checked" in exes:
-        for v in ("1", "256", "3"):
+        for v in ("1", "256", "3", "0"):
             check_env("checked", v, "2")
+    import shutil
+    if shutil.which("taskset"):
+        info["env_matrix"]["affinity"] = ["0", "0-2"]
+        for cpus in ("0", "0-2"):
+            for v in ("0", "1", "256", None):
+                check_env("release", v, None, affinity=cpus)
     return {"violations": violations, "info": info}
